@@ -15,14 +15,16 @@ static void gfdef_run(Ctx& c) {
     int pmode = (c.k % 3 == 2) ? PM_IGNORE : PM_DEFAULT;
     g.allow_unbalanced = (pmode == PM_IGNORE);
     ModelSpec m = gen_model(r, g);
+    const bool cold = (c.k % 6 == 5);      // beta*(E-E_ground) of several hundred to thousands: statistical weights underflow to exactly 0, G must stay exact
+    if (cold) m.beta = r.logu(150, 3000);
     Pipeline p; p.build_lattice(m);
     CMat Href = p.ref_H();
     RefED ed; ed.solve(Href);
     if (ed.herm_defect() > 1e-12 * (1 + ed.hnorm)) { c.skipped = true; return; }
     p.build_states(pmode); p.build_hamiltonian(true); p.build_dm(m.beta); p.build_ops();
     const int N = p.N; const double beta = m.beta;
-    c.model = m.describe(); c.canon = m.canon() + "|" + pm_name(pmode);
-    c.features.set("partition", pm_name(pmode)).set("blocks", p.nblocks()).set("N", N).set("pclass", m.pclass);
+    c.model = m.describe(); c.canon = m.canon() + "|" + pm_name(pmode) + (cold ? "|cold" : "");
+    c.features.set("cold", cold).set("partition", pm_name(pmode)).set("blocks", p.nblocks()).set("N", N).set("pclass", m.pclass);
 
     // index pairs
     std::vector<std::pair<int, int>> pairs;
@@ -50,7 +52,7 @@ static void gfdef_run(Ctx& c) {
     const bool recompute = (c.k % 2 == 0);      // repeated compute()/computeAll() must be idempotent (the objects guard on their status)
     if (recompute) cont.computeAll();
 
-    bool use_expm = (N <= (c.thorough() ? 5 : 4));
+    bool use_expm = (N <= (c.thorough() ? 5 : 4)) && beta * (2 * ed.hnorm + 1) < 300;   // the block-exponential oracle needs exp(beta*bandwidth) to be representable
     long ndropped = 0, nonzero_offdiag = 0; double dropped_mass = 0;
     std::string pk = std::string("part=") + pm_name(pmode);
     for (auto& ij : pairs) {
@@ -61,6 +63,12 @@ static void gfdef_run(Ctx& c) {
         Pomerol::GreensFunction GF(*p.S, *p.H, C, CX, *p.DM); GF.prepare(); GF.compute();
         if (recompute) { GF.compute(); GF.prepare(); GF.compute(); C.compute(); CX.compute(); }
         Pomerol::GreensFunction GFcopy(GF);       // copy of a computed object evaluates like the original
+        // life cycle: copies taken at every stage and driven on by the remaining calls must end up as the same function
+        Pomerol::GreensFunction GA(*p.S, *p.H, C, CX, *p.DM);
+        Pomerol::GreensFunction GA0(GA); GA0.prepare(); GA0.compute();                 // copy of a constructed object
+        GA.prepare(); Pomerol::GreensFunction GA1(GA); GA1.compute();                   // copy of a prepared object
+        GA.compute(); Pomerol::GreensFunction GA2(GA); GA2.prepare(); GA2.compute();    // copy of a computed object, driven again
+        std::vector<Pomerol::GreensFunction> vec; vec.push_back(GA1); vec.push_back(GA2); vec[0].compute(); vec[1].compute();
         Pomerol::GreensFunction& GC = cont((Pomerol::ParticleIndex)i, (Pomerol::ParticleIndex)j);
         TolG tol; tol.prepare(lehmann_terms(cL[(size_t)i], cdL[(size_t)j], lb.E, wlib));
         ndropped += (long)tol.Rsmall.size(); dropped_mass += tol.dropped_sum();
@@ -85,6 +93,8 @@ static void gfdef_run(Ctx& c) {
             c.cmp("container-vs-standalone", "C01:container-vs-standalone:" + kind, lc, ls, 2 * t, det);
             c.cmp("long-vs-complex-overload", "C01:long-vs-complex-overload", lz, ls, 1e-13 * (1 + std::abs(ls)), det);
             c.cmp("copy-vs-original", "C01:copy-vs-original", GFcopy(n), ls, 1e-14 * (1 + std::abs(ls)), det);
+            { const Pomerol::GreensFunction* cp[] = {&GA0, &GA1, &GA2, &vec[0], &vec[1]}; static const char* nm[] = {"of-constructed", "of-prepared", "of-computed", "vector-of-prepared", "vector-of-computed"};
+              for (int q = 0; q < 5; ++q) c.cmp("copy-then-compute", std::string("C01:copy-then-compute:") + nm[q], (*cp[q])(n), ls, 1e-13 * (1 + std::abs(ls)), det); }
         }
         if (i != j && any_nonzero) ++nonzero_offdiag;
     }
